@@ -201,3 +201,6 @@ def _explicit(env, cfg):
                 env.claim(f"ignored_feature_is_zero_t{t + 1}", eq(ex.importance_values[f], 0))
     f0 = names[0]
     env.canary('closed_form_shifted', eq(ex.importance_values[f0], total(hist[f0]) + 1))
+
+
+META['explanation'] += ' Further groups: second explanation from the state and storage the first one left (stale caches), integer-typed losses with dtype-coercing arrays, real river metrics as loss, prefilled user storages, long histories (6-9 calls).'
